@@ -292,3 +292,113 @@ Section Graft.
     apply String.eqb_eq in E. now subst.
   Qed.
 End Graft.
+
+(** * path sums inside the grafted tree are unchanged too *)
+Definition nilc : contrib := ([], []).
+
+Lemma cross_all_nils l : Forall (fun d : list (string * Q) => d = []) l -> cross_all l = [].
+Proof.
+  induction 1 as [|d r Hd _ IH]; simpl; auto. subst d. rewrite IH, app_nil_r.
+  clear. induction r as [|d' r' IHr]; simpl; auto. rewrite cross_nil_r. simpl. exact IHr.
+Qed.
+
+Lemma cross_all_one A d B :
+  Forall (fun x : list (string * Q) => x = []) A -> Forall (fun x : list (string * Q) => x = []) B ->
+  cross_all (A ++ d :: B) = [].
+Proof.
+  intros HA HB. induction HA as [|a r Ha _ IH]; simpl app.
+  - simpl. rewrite (cross_all_nils B HB), app_nil_r.
+    clear -HB. induction HB as [|b r Hb _ IH]; simpl; auto. subst b.
+    rewrite cross_nil_r. simpl. exact IH.
+  - subst a. rewrite cross_all_nil_head. exact IH.
+Qed.
+
+Lemma agg_one A x B :
+  Forall (fun c : contrib => c = nilc) A -> Forall (fun c : contrib => c = nilc) B ->
+  aggD (A ++ x :: B) = fst x /\ aggP (A ++ x :: B) = snd x.
+Proof.
+  intros HA HB.
+  assert (N : forall l, Forall (fun c : contrib => c = nilc) l ->
+                        Forall (fun d : list (string * Q) => d = []) (map fst l) /\
+                        concat (map fst l) = [] /\ concat (map snd l) = []).
+  { induction 1 as [|c r Hc _ IH]; simpl; auto. subst c. simpl. destruct IH as [I1 [I2 I3]]. auto. }
+  destruct (N A HA) as [A1 [A2 A3]]. destruct (N B HB) as [B1 [B2 B3]].
+  unfold aggD, aggP. rewrite !map_app. simpl map. rewrite !concat_app. simpl concat.
+  unfold contrib in *. rewrite A2, A3, B2, B3, cross_all_one by auto. simpl. now rewrite !app_nil_r.
+Qed.
+
+Section GraftInside.
+  Variable w : einfo -> Q.
+  Variable k : string -> bool.
+  Variable g : utree.
+
+  Definition inside (b : utree) : Prop :=
+    dists_equiv (fP k (pairdists w b)) (fP k (pairdists w g)) /\
+    exists q, deq (fD k (depths w b)) (shift q (fD k (depths w g))).
+
+  Lemma killed_contrib p :
+    (forall x, In x (leaves (snd p)) -> k x = false) -> fC k (contrib_of w p) = nilc.
+  Proof.
+    intros H. unfold fC, contrib_of, nilc. simpl. f_equal.
+    - apply fD_none. intros x. rewrite shift_names, depths_names. apply H.
+    - apply fP_none. intros a b d X. apply pairdists_names in X. left. apply H. tauto.
+  Qed.
+
+  Lemma killed_contribs ks :
+    (forall x, In x (kleaves ks) -> k x = false) ->
+    Forall (fun c : contrib => c = nilc) (map (fC k) (contribs w ks)).
+  Proof.
+    induction ks as [|p r IH]; simpl; intros H; constructor.
+    - apply killed_contrib. intros x X. apply H. unfold kleaves. simpl. rewrite in_app_iff. auto.
+    - apply IH. intros x X. apply H. unfold kleaves. simpl. rewrite in_app_iff. auto.
+  Qed.
+
+  Lemma inside_node n c sl1 e ch sl2 :
+    (forall x, In x (kleaves (kids_of sl1)) -> k x = false) ->
+    (forall x, In x (kleaves (kids_of sl2)) -> k x = false) ->
+    fD k (depths w (UNode n c (sl1 ++ Some (e, ch) :: sl2))) = shift (w e) (fD k (depths w ch)) /\
+    fP k (pairdists w (UNode n c (sl1 ++ Some (e, ch) :: sl2))) = fP k (pairdists w ch).
+  Proof.
+    intros H1 H2.
+    rewrite depths_agg, pairdists_agg, fD_aggD, fP_aggP by apply kids_of_nonempty_mid.
+    rewrite kids_of_app. simpl kids_of. unfold contribs. rewrite !map_app. simpl map.
+    destruct (agg_one (map (fC k) (map (contrib_of w) (kids_of sl1))) (fC k (contrib_of w (e, ch)))
+                      (map (fC k) (map (contrib_of w) (kids_of sl2)))) as [A B].
+    - apply (killed_contribs _ H1).
+    - apply (killed_contribs _ H2).
+    - rewrite A, B. unfold fC, contrib_of. simpl. now rewrite fD_shift.
+  Qed.
+
+  Lemma edited_inside tip a b :
+    edited (graft_base tip (add_up_end g)) a b ->
+    (forall x, In x (leaves a) -> k x = false) -> inside b.
+  Proof.
+    induction 1 as [a b H|n c sl1 e ch ch' sl2 H IH]; intros K.
+    - destruct H. rewrite leaves_mid in K.
+      destruct (inside_node n c sl1 e (add_up_end g) sl2) as [A B].
+      + intros x X. apply K. rewrite in_app_iff. auto.
+      + intros x X. apply K. rewrite !in_app_iff. auto.
+      + unfold inside. rewrite A, B, depths_add_up_end, pairdists_add_up_end.
+        split; [reflexivity|]. exists (w e). reflexivity.
+    - rewrite leaves_mid in K.
+      destruct (inside_node n c sl1 e ch' sl2) as [A B].
+      + intros x X. apply K. rewrite in_app_iff. auto.
+      + intros x X. apply K. rewrite !in_app_iff. auto.
+      + destruct IH as [I1 [q I2]].
+        { intros x X. apply K. rewrite !in_app_iff. auto. }
+        unfold inside. rewrite A, B. split; auto. exists (w e + q)%Q.
+        etransitivity; [apply shift_deq; [reflexivity|exact I2]|].
+        apply deq_Forall2, shift_shift.
+  Qed.
+End GraftInside.
+
+(** for every selection [k] of names that leaves out the tips of [t]: the path sums between
+    selected tips of the result are those of the grafted tree *)
+Theorem graft_dists_inside t g t' idx tip w k :
+  graft t idx tip g = Ok t' -> wf t = true ->
+  (forall x, In x (leaves t) -> k x = false) ->
+  dists_equiv (fP k (pairdists w t')) (fP k (pairdists w g)).
+Proof.
+  intros H W K. destruct (edited_inside w k g tip t t' (graft_edited t g t' idx tip H W) K) as [I _].
+  exact I.
+Qed.
